@@ -4,57 +4,13 @@
    (order, proto field paths). *)
 From Coq Require Import String List NArith ZArith Bool Lia ZifyN ZifyNat ZifyBool.
 From J5V.lib Require Import Outcome.
-From J5V.model Require Import RulesDecl RulesWrite RulesRead Validate.
+From J5V.model Require Import RulesDecl RulesWrite RulesRead RulesSpec Validate RulesSpecDec.
 From J5V.gen Require Id62Gen.
 From J5V.proofs Require Import RulesProofs.
 Import ListNotations.
 Local Open Scope Z_scope.
 
 (* ---------------------------------------------------------------- the fragment *)
-Definition pat_plain (p : option str) : bool :=
-  match p with
-  | Some p => negb (str_eqb p date_pattern) && negb (str_eqb p number_pattern)
-              && negb (str_eqb p Id62Gen.pattern_string)
-  | None => true
-  end.
-
-Inductive mode := MSingle | MArray | MMap.
-
-(* the declarations whose every component is carried by the annotations *)
-Definition no_list (t : fty) : bool :=
-  match t with
-  | TInt _ _ None | TStr _ _ None | TBytes _ | TBool _ None | TEnum _ None | TKey _ _ None
-  | TFloat _ None | TDate _ None | TDecimal _ None | TTimestamp None | TAny _ _ None
-  | TObject _ | TOneof None => true
-  | _ => false
-  end.
-
-Definition rt_fty (m : mode) (t : fty) : bool :=
-  (* list rules of map values are not read back *)
-  (match m with MMap => no_list t | _ => true end) &&
-  match m, t with
-  | _, TStr (Some _) _ _ => false            (* StringField.format is not written *)
-  | _, TStr None (Some r) _ => pat_plain (sr_pat r)
-  | _, TKey None e l =>
-      (* without a format the key is recognised by its annotations only *)
-      match l with Some _ => false | None => match m with MSingle => true | _ => is_some e end end
-  | _, TKey (Some KUuid) _ _ | _, TKey (Some KId62) _ _ => true
-  | _, TKey (Some _) _ _ => false          (* custom pattern / informal are not read back *)
-  | MSingle, _ => true
-  (* inside an array or a map there is no (j5.ext.v1.field) of the item *)
-  | _, TDate (Some _) _ | _, TDecimal (Some _) _ => false
-  | _, TObject true => false
-  | _, TAny od ts _ => negb od && match ts with [] => true | _ => false end
-  | _, _ => true
-  end.
-
-Definition rt_ok (d : prop) : bool :=
-  match p_ty d with
-  | PSingle t => rt_fty MSingle t
-  | PArray _ _ t => rt_fty MArray t && negb (p_opt d)
-  | PMap _ t => rt_fty MMap t && negb (p_opt d)
-  end.
-
 (* ---------------------------------------------------------------- helpers *)
 Definition vt_of (v : option constraint) : option tyc :=
   match v with Some c => c_ty c | None => None end.
@@ -178,7 +134,7 @@ Proof.
       (destruct r as [r|]; cbn [only_ty c_ty vt_of];
        [ unfold pat_plain in Hp; destruct (sr_pat r) as [p|] eqn:Ep;
          [ apply andb_true_iff in Hp as [Hp H3]; apply andb_true_iff in Hp as [H1 H2];
-           apply negb_true_iff in H1, H2, H3; rewrite H1, H2, H3; cbn [orb obind];
+           apply negb_true_iff in H1, H2, H3; rewrite H1, H2, H3; cbn [is_some obind];
            destruct l as [p0|]; cbn; destruct r; cbn in *; subst; reflexivity
          | cbn [obind]; destruct l as [p0|]; cbn; destruct r; cbn in *; subst; reflexivity ]
        | cbn [obind]; destruct l; reflexivity ]).
@@ -201,7 +157,18 @@ Proof.
     apply obind_ok in Hw as [lst [Hl Hw]]. inversion Hw; subst w; clear Hw.
     destruct id62_not_wellknown as [Hd Hn].
     cbn [fw_kind read_field fw_val fw_list fw_ext fw_key norm_fty].
-    destruct f as [[|p| |]|]; try (destruct m; discriminate).
+    destruct f as [[|p| |]|].
+    + (* informal: only as a singular property, and never with list rules (compile error) *)
+      destruct m; try discriminate.
+      destruct l as [p0|]; [discriminate|]. inversion Hl; subst lst. unfold read_string. cbn.
+      destruct e as [[[[[|]|pp ee]|] tn]|]; reflexivity.
+    + (* custom *)
+      destruct m; try discriminate.
+      apply andb_true_iff in Hrt as [H3 Hnl]. destruct l as [p0|]; [discriminate|].
+      inversion Hl; subst lst. apply negb_true_iff in H3.
+      unfold read_string. cbn [only_ty c_ty vt_of]. rewrite H3.
+      destruct (str_eqb p date_pattern), (str_eqb p number_pattern); cbn;
+        destruct e as [[[[[|]|pp ee]|] tn]|]; reflexivity.
     + (* uuid *)
       destruct l as [p0|]; inversion Hl; subst lst; unfold read_string; cbn;
         destruct e as [[[[[|]|pp ee]|] tn]|]; destruct m; reflexivity.
@@ -236,6 +203,122 @@ Proof.
   - (* oneof *)
     inversion Hw; subst w; clear Hw. cbn [fw_kind fw_list read_field norm_fty].
     rewrite get_list_with_arm. reflexivity.
+Qed.
+
+
+(* ---------------------------------------------------------------- the fragment is exact *)
+(* Outside [rt_ok] the round trip fails: the fragment is not merely what could be
+   proved, it is exactly the set of declarations that read back as declared. *)
+Definition list_of (t : fty) : option lpay :=
+  match t with
+  | TInt _ _ l | TStr _ _ l | TBool _ l | TEnum _ l | TKey _ _ l | TFloat _ l | TDate _ l
+  | TDecimal _ l | TTimestamp l | TAny _ _ l | TOneof l => l
+  | TBytes _ | TObject _ => None
+  end.
+
+Lemma norm_fty_list env t : list_of (norm_fty env t) = list_of t.
+Proof. destruct t; reflexivity. Qed.
+
+Ltac break_in H :=
+  repeat (cbn [obind] in H;
+          match type of H with
+          | context [match ?x with _ => _ end] => destruct x; try discriminate
+          | context [if ?x then _ else _] => destruct x; try discriminate
+          end).
+
+Lemma read_string_list_none vt j5 key t' :
+  read_string vt None j5 key = Ok t' -> list_of t' = None.
+Proof.
+  unfold read_string. intro H. cbn [get_list] in H.
+  break_in H; inversion H; reflexivity.
+Qed.
+
+Lemma read_field_list_none env k vt j5 key t' :
+  read_field env k vt None j5 key = Ok t' -> list_of t' = None.
+Proof.
+  destruct k; cbn [read_field get_list]; intro H;
+    try (inversion H; reflexivity);
+    try (eapply read_string_list_none; eassumption).
+  - apply obind_ok in H as [r [_ H]]. inversion H. reflexivity.
+  - break_in H; inversion H; reflexivity.
+  - break_in H; inversion H; reflexivity.
+Qed.
+
+Lemma pat_plain_false p :
+  pat_plain (Some p) = false ->
+  str_eqb p date_pattern = true \/ str_eqb p number_pattern = true \/ str_eqb p Id62Gen.pattern_string = true.
+Proof.
+  unfold pat_plain. destruct (str_eqb p date_pattern), (str_eqb p number_pattern), (str_eqb p Id62Gen.pattern_string);
+    cbn; intro H; try discriminate; auto.
+Qed.
+
+Lemma field_rt_conv env m t w :
+  rt_fty m t = false -> write_field env t = Ok w ->
+  read_field env (fw_kind w) (vt_seen m w) (list_seen m w) (j5_seen m w) (fw_key w) <> Ok (norm_fty env t).
+Proof.
+  intros Hrt Hw. unfold rt_fty in Hrt. apply andb_false_iff in Hrt as [Hnl|Hb].
+  - (* list rules on a map value *)
+    destruct m; try discriminate. cbn [list_seen]. intro H.
+    apply read_field_list_none in H. rewrite norm_fty_list in H.
+    destruct t; cbn [no_list list_of] in *; try discriminate; destruct l; discriminate.
+  - destruct t as [k r l|sf r l|r|r l|r l|f e l|f64 l|r l|r l|l|od ts l|fl|l];
+      try (destruct m; discriminate).
+    + (* string *)
+      inversion Hw; subst w; clear Hw. cbn [fw_kind read_field norm_fty].
+      destruct sf as [sf|].
+      { (* a declared format is not written; the reader derives "date" / "number" from a
+           well-known pattern, and then drops the pattern *)
+        unfold vt_seen. cbn [fw_val vt_of].
+        destruct r as [[[p|] mn mx]|]; cbn [only_ty c_ty vt_of sr_pat sr_min sr_max];
+          unfold read_string; intro H; break_in H; inversion H. }
+      destruct r as [[pat mn mx]|]; [|destruct m; discriminate].
+      assert (Hp : pat_plain pat = false) by (destruct m; exact Hb).
+      destruct pat as [p|]; [|discriminate].
+      unfold vt_seen. cbn [fw_val vt_of only_ty c_ty sr_pat sr_min sr_max]. unfold read_string.
+      unfold pat_plain in Hp.
+      destruct (str_eqb p date_pattern), (str_eqb p number_pattern), (str_eqb p Id62Gen.pattern_string);
+        try discriminate Hp; cbn [is_some]; intro H; break_in H; inversion H.
+    + (* key *)
+      apply obind_ok in Hw as [lst [Hl Hw]]. inversion Hw; subst w; clear Hw.
+      destruct id62_not_wellknown as [Hd Hn].
+      cbn [fw_kind read_field norm_fty]. unfold vt_seen. cbn [fw_val fw_list fw_ext fw_key].
+      destruct f as [[|p| |]|].
+      * (* informal, not singular *)
+        destruct m; try discriminate; cbn [j5_seen list_seen];
+          (destruct l as [p0|]; [discriminate|]); inversion Hl; subst lst;
+          unfold read_string; cbn; destruct e; cbn; discriminate.
+      * (* custom *)
+        destruct m.
+        -- (* singular: well-known pattern, or list rules *)
+           cbn [j5_seen list_seen fw_ext fw_list]. apply andb_false_iff in Hb as [Hp|Hls].
+           ++ apply negb_false_iff in Hp. apply str_eqb_eq in Hp. subst p.
+              unfold read_string. cbn [vt_of only_ty c_ty]. rewrite Hd, Hn, str_eqb_refl.
+              intro H. break_in H; inversion H.
+           ++ destruct l as [p0|]; [|discriminate]. inversion Hl; subst lst.
+              unfold read_string. cbn [vt_of only_ty c_ty]. intro H. break_in H; inversion H.
+        -- cbn [j5_seen list_seen]. unfold read_string. intro H. break_in H; inversion H.
+        -- cbn [j5_seen list_seen]. unfold read_string. intro H. break_in H; inversion H.
+      * destruct m; discriminate.
+      * destruct m; discriminate.
+      * (* no format *)
+        destruct l as [p0|].
+        -- inversion Hl; subst lst.
+           destruct m; cbn [j5_seen list_seen fw_ext fw_list]; unfold read_string; cbn;
+             intro H; break_in H; inversion H.
+        -- inversion Hl; subst lst. destruct m; try discriminate;
+             destruct e; try discriminate; cbn [j5_seen list_seen]; unfold read_string; cbn; discriminate.
+    + (* date *)
+      inversion Hw; subst w; clear Hw. destruct m, r; try discriminate;
+        cbn [fw_kind read_field norm_fty j5_seen]; discriminate.
+    + (* decimal *)
+      inversion Hw; subst w; clear Hw. destruct m, r; try discriminate;
+        cbn [fw_kind read_field norm_fty j5_seen]; discriminate.
+    + (* any *)
+      inversion Hw; subst w; clear Hw. destruct m; try discriminate;
+        cbn [fw_kind read_field norm_fty j5_seen]; intro H; inversion H; subst; discriminate.
+    + (* object *)
+      inversion Hw; subst w; clear Hw. destruct m, fl; try discriminate;
+        cbn [fw_kind read_field norm_fty j5_seen]; discriminate.
 Qed.
 
 (* ---------------------------------------------------------------- one property *)
@@ -275,12 +358,51 @@ Proof.
   - destruct (fw_val w) as [c|] eqn:E; [|reflexivity]. eapply write_field_noreq; eauto.
 Qed.
 
+Lemma desc_plain_eq d : desc_plain d = true -> clean_desc d = d.
+Proof. unfold desc_plain. apply str_eqb_eq. Qed.
+
+(* whether the declared item type carries a constraint, and whether the writer emits one *)
+Lemma write_field_constrained env t w :
+  write_field env t = Ok w -> is_some (fw_val w) = items_constrained t.
+Proof.
+  intro Hw.
+  destruct t as [k r l|sf r l|r|r l|r l|f e l|f64 l|r l|r l|l|od ts l|fl|l]; cbn [write_field] in Hw;
+    try (apply obind_ok in Hw as [x [Hx Hw]]);
+    inversion Hw; subst w; cbn [fw_val items_constrained]; try reflexivity.
+  - destruct r as [r|].
+    + apply obind_ok in Hx as [c [_ Hx]]. inversion Hx. reflexivity.
+    + inversion Hx. reflexivity.
+  - destruct r; reflexivity.
+  - destruct r; reflexivity.
+  - destruct r; reflexivity.
+  - destruct f as [[| | |]|]; reflexivity.
+Qed.
+
+(* the description: written as declared, read through commentDescription *)
+Lemma write_prop_desc env idx d o : write_prop env idx d = Ok o -> fo_desc o = p_desc d.
+Proof.
+  unfold write_prop. intro H. apply obind_ok in H as [w [_ H]].
+  match type of H with (if ?c then _ else _) = _ => destruct c; [discriminate|] end.
+  inversion H. reflexivity.
+Qed.
+
+Lemma read_prop_desc env o r : read_prop env o = Ok r -> p_desc (rp_prop r) = clean_desc (fo_desc o).
+Proof.
+  unfold read_prop. intro H.
+  destruct (fo_kind o); try (destruct (fo_rep o));
+    repeat match type of H with
+           | (let '(_, _) := ?x in _) = _ => destruct x
+           end;
+    apply obind_ok in H as [t [_ H]]; inversion H; reflexivity.
+Qed.
+
 Theorem c04_prop env idx d o :
   rt_ok d = true -> write_prop env idx d = Ok o ->
   read_prop env o = Ok (norm_prop env idx d).
 Proof.
   intros Hrt Hw.
-  destruct d as [name req opt ty desc]. unfold rt_ok in Hrt. cbn [p_ty p_opt] in Hrt.
+  destruct d as [name req opt ty desc]. unfold rt_ok in Hrt. cbn [p_ty p_opt p_desc] in Hrt.
+  apply andb_true_iff in Hrt as [Hdesc Hrt]. apply desc_plain_eq in Hdesc.
   unfold write_prop in Hw. cbn [p_name p_req p_opt p_ty p_desc] in Hw.
   apply obind_ok in Hw as [w [Hwf Hw]].
   destruct ty as [t|r sf t|r t].
@@ -307,7 +429,7 @@ Proof.
       rewrite (req_of_val env t w required Hwf);
       unfold norm_prop; cbn [p_name p_req p_opt p_ty p_desc]; fold required;
       replace (negb required && opt) with opt by (destruct required, opt; try reflexivity; discriminate);
-      reflexivity.
+      rewrite Hdesc; reflexivity.
   - (* array *)
     apply andb_true_iff in Hrt as [Hrt Hopt]. apply negb_true_iff in Hopt. subst opt.
     apply obind_ok in Hwf as [wi [Hwt Hwa]]. inversion Hwa; subst w; clear Hwa.
@@ -326,10 +448,11 @@ Proof.
     unfold vt_seen in Hf; cbn [list_seen j5_seen] in Hf.
     destruct (fw_kind wi) eqn:Ek; try (exfalso; eapply Hk; reflexivity);
       lazy iota beta;
-      unfold norm_prop; cbn [p_name p_req p_opt p_ty p_desc]; fold required; rewrite Hwt;
+      unfold norm_prop; cbn [p_name p_req p_opt p_ty p_desc]; fold required;
+      rewrite <- (write_field_constrained env t wi Hwt);
       destruct required; destruct r as [[mn mx uq]|]; destruct (fw_val wi) as [c|] eqn:Ev;
       cbn [set_required is_some orb only_ty c_ty c_req ar_min ar_max ar_uniq vt_of] in *;
-      rewrite Hf; reflexivity.
+      rewrite Hf, Hdesc; reflexivity.
   - (* map *)
     apply andb_true_iff in Hrt as [Hrt Hopt]. apply negb_true_iff in Hopt. subst opt.
     apply obind_ok in Hwf as [wi [Hwt Hwa]]. inversion Hwa; subst w; clear Hwa.
@@ -339,10 +462,121 @@ Proof.
     cbn [fo_kind fo_rep fo_val fo_list fo_ext fo_key fo_json fo_number fo_desc fo_opt].
     pose proof (field_rt env MMap t wi Hrt Hwt) as Hf.
     unfold vt_seen in Hf; cbn [list_seen j5_seen] in Hf.
-    unfold norm_prop. cbn [p_name p_req p_opt p_ty p_desc]. rewrite orb_false_r. rewrite Hwt.
+    unfold norm_prop. cbn [p_name p_req p_opt p_ty p_desc]. rewrite orb_false_r.
+    rewrite <- (write_field_constrained env t wi Hwt).
     destruct req; destruct r as [[mn mx]|]; destruct (fw_val wi) as [c|] eqn:Ev;
       cbn [set_required is_some orb only_ty c_ty c_req mr_min mr_max vt_of] in *;
-      rewrite Hf; reflexivity.
+      rewrite Hf, Hdesc; reflexivity.
+Qed.
+
+
+(* the converse, for properties *)
+Lemma c04_prop_conv env idx d o :
+  rt_ok d = false -> write_prop env idx d = Ok o ->
+  read_prop env o <> Ok (norm_prop env idx d).
+Proof.
+  intros Hrt Hw.
+  unfold rt_ok in Hrt. apply andb_false_iff in Hrt as [Hdesc|Hrt].
+  { (* the description does not survive commentDescription *)
+    intro H. apply read_prop_desc in H. rewrite (write_prop_desc env idx d o Hw) in H.
+    unfold norm_prop in H. cbn [rp_prop p_desc] in H.
+    unfold desc_plain in Hdesc. rewrite <- H, str_eqb_refl in Hdesc. discriminate. }
+  destruct d as [name req opt ty desc]. cbn [p_ty p_opt] in Hrt.
+  unfold write_prop in Hw. cbn [p_name p_req p_opt p_ty p_desc] in Hw.
+  apply obind_ok in Hw as [w [Hwf Hw]].
+  destruct ty as [t|r sf t|r t].
+  - (* singular *)
+    pose proof (write_field_primary_ty env t w Hwf) as Hprim.
+    assert (Hw' : (if opt && (req || is_primary_ty t) then Err "cannot be both required and optional"
+                   else Ok (FO name (idx + 1)%N (fw_kind w) false opt (opt || is_msg_kind (fw_kind w))
+                              (if req || is_primary_ty t then set_required (fw_val w) else fw_val w)
+                              (fw_ext w) (fw_list w) (fw_key w) desc)) = Ok o).
+    { rewrite <- Hprim. destruct (fw_key w); exact Hw. }
+    clear Hw. set (required := req || is_primary_ty t) in *.
+    destruct (opt && required) eqn:Eor; [discriminate|]. inversion Hw'; subst o; clear Hw'.
+    pose proof (field_rt_conv env MSingle t w Hrt Hwf) as Hc.
+    unfold vt_seen in Hc; cbn [list_seen j5_seen] in Hc.
+    unfold read_prop.
+    cbn [fo_kind fo_rep fo_val fo_list fo_ext fo_key fo_json fo_number fo_desc fo_opt].
+    pose proof (kind_not_map env t w Hwf) as Hk.
+    replace (match (if required then set_required (fw_val w) else fw_val w) with
+             | Some c => c_ty c | None => None end) with (vt_of (fw_val w))
+      by (destruct required; [rewrite <- vt_set_required|]; reflexivity).
+    destruct (fw_kind w) eqn:Ek; try (exfalso; eapply Hk; reflexivity);
+      destruct (read_field env _ (vt_of (fw_val w)) (fw_list w) (fw_ext w) (fw_key w)) as [t'| | |];
+      cbn [obind]; intro H; try discriminate;
+      apply Hc; unfold norm_prop in H; cbn [p_ty] in H; inversion H; reflexivity.
+  - (* array *)
+    apply obind_ok in Hwf as [wi [Hwt Hwa]]. inversion Hwa; subst w; clear Hwa.
+    pose proof (write_field_primary_ty env t wi Hwt) as Hprim.
+    cbn [wrap_array fw_key fw_kind fw_val fw_ext fw_list] in Hw.
+    assert (Hw' : (if opt && (req || is_primary_ty t) then Err "cannot be both required and optional"
+                   else Ok (FO name (idx + 1)%N (fw_kind wi) true false false
+                         (if req || is_primary_ty t then set_required (fw_val (wrap_array r sf wi)) else fw_val (wrap_array r sf wi))
+                         (Some (XArray sf)) (fw_list wi) (fw_key wi) desc)) = Ok o).
+    { rewrite <- Hprim. destruct (fw_key wi); exact Hw. }
+    clear Hw. set (required := req || is_primary_ty t) in *.
+    destruct (opt && required) eqn:Eor; [discriminate|]. inversion Hw'; subst o; clear Hw'.
+    unfold read_prop.
+    cbn [fo_kind fo_rep fo_val fo_list fo_ext fo_key fo_json fo_number fo_desc fo_opt].
+    pose proof (kind_not_map env t wi Hwt) as Hk.
+    apply andb_false_iff in Hrt as [Hrt|Hopt].
+    + pose proof (field_rt_conv env MArray t wi Hrt Hwt) as Hc.
+      unfold vt_seen in Hc; cbn [list_seen j5_seen] in Hc.
+      destruct (fw_kind wi) eqn:Ek; try (exfalso; eapply Hk; reflexivity);
+        lazy iota beta;
+        unfold norm_prop; cbn [p_name p_req p_opt p_ty p_desc];
+        destruct required; destruct r as [[mn mx uq]|]; destruct (fw_val wi) as [c|] eqn:Ev;
+        cbn [wrap_array fw_val set_required is_some orb only_ty c_ty c_req ar_min ar_max ar_uniq vt_of] in *;
+        match goal with
+        | |- obind ?rf _ <> _ => destruct rf as [t'| | |]; cbn [obind]; intro H; try discriminate;
+                                 apply Hc; inversion H; reflexivity
+        end.
+    + apply negb_false_iff in Hopt. subst opt.
+      destruct (fw_kind wi) eqn:Ek; try (exfalso; eapply Hk; reflexivity);
+        lazy iota beta;
+        match goal with
+        | |- (let '(_, _) := ?x in _) <> _ => destruct x as [rules items]
+        end;
+        match goal with
+        | |- obind ?rf _ <> _ => destruct rf as [t'| | |]; cbn [obind]; intro H; try discriminate;
+                                 unfold norm_prop in H; cbn [p_opt] in H; inversion H
+        end.
+  - (* map *)
+    apply obind_ok in Hwf as [wi [Hwt Hwa]]. inversion Hwa; subst w; clear Hwa.
+    cbn [wrap_map fw_key fw_kind fw_val fw_ext fw_list andb orb] in Hw.
+    rewrite orb_false_r in Hw.
+    destruct (opt && req) eqn:Eor; [discriminate|]. inversion Hw; subst o; clear Hw.
+    unfold read_prop.
+    cbn [fo_kind fo_rep fo_val fo_list fo_ext fo_key fo_json fo_number fo_desc fo_opt].
+    apply andb_false_iff in Hrt as [Hrt|Hopt].
+    + pose proof (field_rt_conv env MMap t wi Hrt Hwt) as Hc.
+      unfold vt_seen in Hc; cbn [list_seen j5_seen] in Hc.
+      unfold norm_prop; cbn [p_name p_req p_opt p_ty p_desc].
+      destruct req; destruct r as [[mn mx]|]; destruct (fw_val wi) as [c|] eqn:Ev;
+        cbn [set_required is_some orb only_ty c_ty c_req mr_min mr_max vt_of] in *;
+        match goal with
+        | |- obind ?rf _ <> _ => destruct rf as [t'| | |]; cbn [obind]; intro H; try discriminate;
+                                 apply Hc; inversion H; reflexivity
+        end.
+    + apply negb_false_iff in Hopt. subst opt.
+      match goal with
+      | |- (let '(_, _) := ?x in _) <> _ => destruct x as [rules values]
+      end;
+      match goal with
+      | |- obind ?rf _ <> _ => destruct rf as [t'| | |]; cbn [obind]; intro H; try discriminate;
+                               unfold norm_prop in H; cbn [p_opt] in H; inversion H
+      end.
+Qed.
+
+(* a property reads back as declared exactly when it lies in the fragment *)
+Theorem c04_prop_exact env idx d o :
+  write_prop env idx d = Ok o ->
+  (read_prop env o = Ok (norm_prop env idx d) <-> rt_ok d = true).
+Proof.
+  intro Hw. split.
+  - intro H. destruct (rt_ok d) eqn:E; [reflexivity|]. exfalso. exact (c04_prop_conv env idx d o E Hw H).
+  - intro H. exact (c04_prop env idx d o H Hw).
 Qed.
 
 (* ---------------------------------------------------------------- objects *)
@@ -371,6 +605,32 @@ Theorem c04_object env ds os :
   read_object env os = Ok (norm_object env ds).
 Proof. apply c04_props_from. Qed.
 
+Lemma c04_props_from_exact env ds : forall idx os,
+  write_props_from env idx ds = Ok os ->
+  (read_object env os = Ok (norm_props_from env idx ds) <-> forallb rt_ok ds = true).
+Proof.
+  induction ds as [|d r IH]; intros idx os Hw; cbn in Hw.
+  - inversion Hw. split; reflexivity.
+  - apply obind_ok in Hw as [o [Ho Hw]]. apply obind_ok in Hw as [os' [Hos Hw]].
+    inversion Hw; subst os. cbn [read_object norm_props_from forallb].
+    split.
+    + intro H. destruct (read_prop env o) as [p| | |] eqn:Ep; cbn [obind] in H; try discriminate.
+      destruct (read_object env os') as [ps| | |] eqn:Eps; cbn [obind] in H; try discriminate.
+      inversion H; subst.
+      apply andb_true_iff. split.
+      * apply (c04_prop_exact env idx d o Ho). exact Ep.
+      * apply (IH (idx + 1)%N os' Hos). exact Eps.
+    + intro H. apply andb_true_iff in H as [Hd Hr].
+      rewrite (c04_prop env idx d o Hd Ho). cbn [obind].
+      rewrite (proj2 (IH (idx + 1)%N os' Hos) Hr). reflexivity.
+Qed.
+
+(* an object reads back as declared exactly when all its properties lie in the fragment *)
+Theorem c04_object_exact env ds os :
+  write_object env ds = Ok os ->
+  (read_object env os = Ok (norm_object env ds) <-> forallb rt_ok ds = true).
+Proof. apply c04_props_from_exact. Qed.
+
 (* the normal form keeps names, order and positions *)
 Lemma norm_object_names env ds :
   map (fun r => p_name (rp_prop r)) (norm_object env ds) = map p_name ds.
@@ -395,11 +655,14 @@ Qed.
 (* the normal form changes no meaning: the declared rules of the normal form
    accept exactly the values the declaration accepts (ties C04's notion of
    "the same schema" to C12's semantics) *)
-Lemma norm_int_sem r z : int_rule_ok (norm_int r) z = int_rule_ok r z.
+Lemma norm_int_ok r z : int_rule_ok (norm_int r) z = int_rule_ok r z.
 Proof.
   unfold int_rule_ok, norm_int. destruct r as [mn mx xmn xmx]. cbn [ir_min ir_max ir_xmin ir_xmax].
   destruct mn, mx, xmn as [[|]|], xmx as [[|]|]; reflexivity.
 Qed.
+(* ... stated on the declarative specification (model/RulesSpec.v) *)
+Lemma norm_int_sem r z : int_sem (norm_int r) z <-> int_sem r z.
+Proof. rewrite <- !int_rule_ok_spec, norm_int_ok. reflexivity. Qed.
 
 (* ---------------------------------------------------------------- enums as roots *)
 From J5V.model Require Import RulesEnum.
@@ -415,18 +678,6 @@ Proof.
   unfold trim_suffix. rewrite has_suffix_app. rewrite rev_app_distr, strip_prefix_app. apply rev_involutive.
 Qed.
 
-(* an explicit first option that stands for value 0 is spelled UNSPECIFIED or
-   <prefix>UNSPECIFIED (and the prefix is not itself a prefix of "UNSPECIFIED") *)
-Definition unspec_ok (e : enum_decl) : bool :=
-  match ed_options e with
-  | (n, _) :: _ =>
-      if has_suffix unspecified n
-      then str_eqb n (ed_prefix e ++ unspecified)
-           || (str_eqb n unspecified && negb (has_prefix (ed_prefix e) unspecified))
-      else true
-  | [] => true
-  end.
-
 Lemma write_enum_first e :
   unspec_ok e = true ->
   exists d rest, eo_values (write_enum e) = ((ed_prefix e ++ unspecified)%list, 0%Z, d) :: rest.
@@ -440,10 +691,73 @@ Proof.
     apply negb_true_iff in H2. unfold pfx. rewrite H2. eauto.
 Qed.
 
-Theorem c04_enum e : unspec_ok e = true -> read_enum (write_enum e) = Ok (norm_enum e).
+Lemma trim_pfx p n : trim_prefix p (pfx p n) = trim_prefix p n.
 Proof.
-  intro H. destruct (write_enum_first e H) as [d [rest Hv]].
-  unfold read_enum, norm_enum. rewrite Hv.
-  rewrite has_suffix_app. cbn [negb]. rewrite trim_suffix_app.
-  rewrite <- Hv. reflexivity.
+  unfold pfx. destruct (has_prefix p n) eqn:E; [reflexivity|].
+  unfold trim_prefix. rewrite has_prefix_app, strip_prefix_app, E. reflexivity.
+Qed.
+
+Lemma read_numbered p os : forall i,
+  forallb (fun o => desc_plain (snd o)) os = true ->
+  map (fun v => match v with (n, k, d) => (trim_prefix p n, k, clean_desc d) end) (number_from p i os)
+  = number_options p i os.
+Proof.
+  induction os as [|[n d] r IH]; intros i H; [reflexivity|].
+  cbn [forallb snd] in H. apply andb_true_iff in H as [Hd Hr].
+  cbn [number_from number_options map]. rewrite trim_pfx, (desc_plain_eq d Hd), (IH (i + 1)%Z Hr). reflexivity.
+Qed.
+
+Lemma has_suffix_refl s : has_suffix s s = true.
+Proof. unfold has_suffix. rewrite <- (app_nil_r (rev s)) at 2. apply has_prefix_app. Qed.
+
+Theorem c04_enum e : enum_rt e = true -> read_enum (write_enum e) = Ok (norm_enum e).
+Proof.
+  intro H. unfold enum_rt in H. apply andb_true_iff in H as [H Hos]. apply andb_true_iff in H as [Hu Hd].
+  destruct (write_enum_first e Hu) as [d0 [rest Hv]].
+  unfold read_enum. rewrite Hv. rewrite has_suffix_app. cbn [negb]. rewrite trim_suffix_app.
+  rewrite <- Hv. clear Hv d0 rest.
+  unfold norm_enum, write_enum. cbn [eo_desc eo_values]. rewrite (desc_plain_eq _ Hd). f_equal. f_equal.
+  unfold unspec_ok in Hu.
+  destruct (ed_options e) as [|[n d] r] eqn:Eo.
+  - cbn [map]. unfold trim_prefix. rewrite has_prefix_app, strip_prefix_app. reflexivity.
+  - cbn [forallb snd] in Hos. apply andb_true_iff in Hos as [Hd0 Hr].
+    destruct (has_suffix unspecified n) eqn:Es.
+    + assert (Hn : names_unspecified (ed_prefix e) n = true /\ pfx (ed_prefix e) n = (ed_prefix e ++ unspecified)%list).
+      { unfold names_unspecified. apply orb_true_iff in Hu as [Hu|Hu].
+        - apply str_eqb_eq in Hu. subst n. rewrite str_eqb_refl, orb_true_r. split; [reflexivity|].
+          unfold pfx. rewrite has_prefix_app. reflexivity.
+        - apply andb_true_iff in Hu as [H1 H2]. apply str_eqb_eq in H1. subst n.
+          rewrite str_eqb_refl. split; [reflexivity|]. apply negb_true_iff in H2. unfold pfx. rewrite H2. reflexivity. }
+      destruct Hn as [Hn1 Hn2]. rewrite Hn1. cbn [map]. rewrite Hn2.
+      unfold trim_prefix at 1. rewrite has_prefix_app, strip_prefix_app, (desc_plain_eq d Hd0).
+      rewrite (read_numbered (ed_prefix e) r 1%Z Hr). reflexivity.
+    + assert (Hn : names_unspecified (ed_prefix e) n = false).
+      { unfold names_unspecified. apply orb_false_iff. split.
+        - destruct (str_eqb n unspecified) eqn:E; [|reflexivity]. apply str_eqb_eq in E. subst n.
+          rewrite has_suffix_refl in Es. discriminate.
+        - destruct (str_eqb n (ed_prefix e ++ unspecified)) eqn:E; [|reflexivity]. apply str_eqb_eq in E. subst n.
+          rewrite has_suffix_app in Es. discriminate. }
+      rewrite Hn. cbn [map]. unfold trim_prefix at 1. rewrite has_prefix_app, strip_prefix_app. cbn [clean_desc].
+      assert (Hall : forallb (fun o => desc_plain (snd o)) ((n, d) :: r) = true)
+        by (cbn [forallb snd]; rewrite Hd0, Hr; reflexivity).
+      rewrite (read_numbered (ed_prefix e) ((n, d) :: r) 1%Z Hall). reflexivity.
+Qed.
+
+(* ---------------------------------------------------------------- the printed text *)
+(* Reflection depends on a field only through [c04_proj]. Hence: if printing and
+   re-parsing a file preserves that view of every field (C05's subject; checked
+   on every generated object by the correspondence stream C04Text), the schema
+   reflected from the text is the schema reflected from memory. *)
+Lemma read_prop_view env o o' : c04_proj o = c04_proj o' -> read_prop env o = read_prop env o'.
+Proof.
+  intro H. unfold c04_proj in H. inversion H as [[Hj Hn Hk Hr Ho Hv He Hl Hky Hd]].
+  unfold read_prop. rewrite Hj, Hn, Hk, Hr, Ho, Hv, He, Hl, Hky, Hd. reflexivity.
+Qed.
+
+Theorem c04_text_clause env : forall os os',
+  Forall2 (fun o o' => c04_proj o = c04_proj o') os os' ->
+  read_object env os' = read_object env os.
+Proof.
+  intros os os' H. induction H as [|o o' r r' Ho Hr IH]; [reflexivity|].
+  cbn [read_object]. rewrite (read_prop_view env o o' Ho). rewrite IH. reflexivity.
 Qed.
